@@ -14,7 +14,9 @@ var UniqueDirectivesPerLocationRule = Rule{
 			seen := map[string]bool{}
 
 			for _, dir := range directives {
-				if dir.Name != "repeatable" && seen[dir.Name] {
+				// a directive may only be repeated if its definition says so
+				isRepeatable := dir.Definition != nil && dir.Definition.IsRepeatable
+				if !isRepeatable && seen[dir.Name] {
 					addError(
 						Message(`The directive "@%s" can only be used once at this location.`, dir.Name),
 						At(dir.Position),
